@@ -706,7 +706,7 @@ class OpenJobBySP(FSContract):
 
 class JobRemove(FSContract):
     target = f"{JOB}.Job.remove"
-    properties = ("C03", "C11")
+    properties = ("C03", "C05", "C11")
 
     def setup(self, interp, case):
         ex, ctx = interp.ex, interp.ctx
@@ -717,7 +717,7 @@ class JobRemove(FSContract):
             from .jobfs import SDoc
             job.fields["_document"] = SDoc(LIn(proj.p, job.me, Name.DOC), True)
             job.fields["_stores"] = "h5-store-manager"
-        return [job], {}, {"job": job, "p": proj.p, "me": job.me}
+        return [job], {}, {"job": job, "p": proj.p, "me": job.me, "had_doc": job.fields["_document"]}
 
     def crash_invariant(self, interp, ctx, label, fs):
         pre = ctx.ghost.get("pre")
@@ -733,6 +733,12 @@ class JobRemove(FSContract):
             ex.oblige(self.oname("ensures:job_directory_gone"), z3.And(z3.Not(fs.dirs[k]), fs.ent[k] == EMPTY))
             ex.oblige(self.oname("ensures:document_and_store_handles_dropped_when_a_directory_was_removed"),
                       z3.Implies(fs0.dirs[k], z3.BoolVal(job.fields["_document"] is None and job.fields["_stores"] is None)))
+            # an open (possibly buffered) document handle must be cleared before it is dropped, or stale buffered keys come back
+            # when the job is re-created inside the same signac.buffered() block (C05: buffering is transparent)
+            had = pre.get("had_doc")
+            cleared = any(d is had and w == "clear" for d, w in ctx.ghost.get("docwrites", []))
+            ex.oblige(self.oname("ensures:an_open_document_handle_is_cleared_before_it_is_dropped"),
+                      z3.Implies(z3.And(fs0.dirs[k], z3.BoolVal(had is not None)), z3.BoolVal(cleared)))
             dk = job.fields["_directory_known"]
             ex.oblige(self.oname("ensures:directory_no_longer_assumed_to_exist"), z3.BoolVal(dk is False))
         else:
